@@ -486,6 +486,10 @@ def value_cases(tier):
         out.append(('edcert', b, 'key'))
         out.append(('edcert', b, 'ca'))
         out.append(('ed448', b, 'key'))
+    from props import c05
+    for label in sorted(c05.CERT_FIELD_SETS):
+        for cname in ('ssh-ed25519-cert-v01@openssh.com', 'ssh-rsa-cert-v01@openssh.com'):
+            out.append(('certfields', label, cname))
     exps = [3, 17, 35, 257, 65535, 65537, 65539, 2 ** 31 - 1, 2 ** 31 + 11, 2 ** 32 + 1, 2 ** 64 + 13]
     for bits in (2047, 2048, 3072, 3073):
         top = 1 << (bits - 1)
@@ -503,6 +507,21 @@ def work_values(chunk, st):
     for case in chunk:
         for fmt in ('text', 'json'):
             opts = ['-j'] if fmt == 'json' else []
+            if case[0] == 'certfields':
+                from props import c05
+                _k, label, cname = case
+                ca_tree = wire.rsa_blob_tree(2048)
+                fl = c05.CERT_FIELD_SETS[label]
+                tree = wire.ed25519_cert_tree(ca_tree, fields=fl) if 'ed25519' in cname else wire.rsa_cert_tree(3072, ca_tree, fields=fl)
+                res, _ = run_server([cname], {cname: tree}, opts=opts)
+                root = ('value', 'certfields', label, cname, fmt)
+                st.execution(res.world, outcome=('value', 'certfields', fmt, res.status), root=root, nontrivial=root, detail='light')
+                d = {'certificate': cname, 'free_form_fields': label, 'fmt': fmt, 'status': res.status}
+                e = key_entry(res, fmt, cname) if res.status in (0, 2, 3) else None
+                want_ca = 'ssh-rsa' if fmt == 'json' else 'RSA'
+                if e is None or e['casize'] != 2048 or e['catype'] != want_ca or ('rsa' in cname and e['size'] != 3072):
+                    st.violation('value:certificate-details-depend-on-free-form-fields:%s' % label.split('-')[0], dict(d, reported=None if e is None else [e['size'], e['catype'], e['casize']]))
+                continue
             if case[0] in ('ed', 'edcert', 'ed448'):
                 kind, b, where = case
                 pk = bytes([b]) + b'\x5a' * 31
